@@ -28,6 +28,9 @@ package proxyutil
 //@   ensures[one-warning-recorded] nWarn == old(nWarn) + 1 && lastWarnHeader == header
 //@   at entry 0 before set nWarn = nWarn + 1
 //@   at entry 0 before set lastWarnHeader = header
+// warn-text and warn-date are quoted-strings: the error text goes through %q, so a quote, backslash or line break in it
+// cannot end the quoted-string early or split the header line
+//@   at call 0 of Sprintf before assert[warn-text-and-date-are-escaped-quoted-strings; C03] arg0 == "199 \"martian\" %q %q"
 
 //@ func GetRangeStart
 //@   serves C18
